@@ -343,6 +343,7 @@ example : lineOk ⟨0, 0, [(cp% "06", none)], [(cp% "operator", cp% "SIA")], cp%
 #print axioms Data.be_banks.db_eq
 #print axioms Data.cz_banks.db_eq
 #print axioms Data.iban.db_eq
+#print axioms Data.id_loc.db_eq
 #print axioms Data.isbn.db_eq
 #print axioms Data.isil.db_eq
 #print axioms Data.my_bp.db_eq
